@@ -43,12 +43,14 @@ example : prevSeq 3 0 = 3 ∧ prevSeq 3 1 = 2 ∧ prevSeq 3 2 = 0 ∧ prevSeq 3 
     them — harmless or not — breaks this obligation; the check then searches for a failing input
     with the correspondence streams (DESIGN.md section 2, step 5). -/
 theorem C02_model_sources :
-    Gen.modelSources.filter (fun e => e.1 ∈ ["iterator.generate_prev_primes", "iterator.hpp.prev_prime", "IteratorHelper.updatePrev", "IteratorHelper.getPrevDist", "PrimeGenerator.initPrevPrimes", "PrimeGenerator.sievePrevPrimes"]) =
+    Gen.modelSources.filter (fun e => e.1 ∈ ["iterator.generate_prev_primes", "iterator.hpp.prev_prime", "IteratorHelper.updatePrev", "IteratorHelper.getPrevDist", "PrimeGenerator.initPrevPrimes", "PrimeGenerator.sievePrevPrimes", "PrimeGenerator_default.fillPrevPrimes", "PrimeGenerator_avx512.fillPrevPrimes"]) =
      [("iterator.generate_prev_primes", "1784049c687ca3b8c7e8"),
       ("iterator.hpp.prev_prime", "57cdaf17aeb89aae2176"),
       ("IteratorHelper.updatePrev", "d669145275de3ba547da"),
       ("IteratorHelper.getPrevDist", "ccd93277a94283fb7359"),
       ("PrimeGenerator.initPrevPrimes", "c25f6557e8833fa27b53"),
-      ("PrimeGenerator.sievePrevPrimes", "a0a1b531086492c7ee6c")] := by decide
+      ("PrimeGenerator.sievePrevPrimes", "a0a1b531086492c7ee6c"),
+      ("PrimeGenerator_default.fillPrevPrimes", "0272d4b8fe4d0a8ef7e2"),
+      ("PrimeGenerator_avx512.fillPrevPrimes", "37502b8750d9600d675d")] := by decide
 
 end Ps.Props
